@@ -1,0 +1,14 @@
+//go:build verif
+
+package kademlia
+
+import "github.com/gauss-project/aurorafs/pkg/boson"
+
+// VerifWrapPeerFilter replaces the reachability filter of a Kad that was constructed with New
+// but never Start()ed by wrap(current filter).  The verification harness uses it to observe
+// (and, for the concurrency checks of the depth recalculation, to pause) the calls the real
+// filter - by default Kad.peerUnreachable - receives; the wrapped filter still decides.
+// Must be called before any other goroutine uses the Kad.
+func (k *Kad) VerifWrapPeerFilter(wrap func(next func(boson.Address) bool) func(boson.Address) bool) {
+	k.peerFilter = peerFilterFunc(wrap(k.peerFilter))
+}
